@@ -237,7 +237,7 @@ def run_shard(shard: Dict[str, Any]) -> Acc:
             inp = libgen.gen_repcode_input(rng, max_distance=4, max_cycles=8)
             acc.hist("class", "library/" + inp["constructor"])
             acc.case(bp.phash(inp), inp["cycles"] >= 2, sample=inp if i < 3 else None)
-            check_library(inp, acc)
+            common.guarded(acc, check_library, inp, acc, case={"library": inp})
         return acc
     classes = shard["classes"]
     for i in range(shard["n"]):
@@ -245,7 +245,7 @@ def run_shard(shard: Dict[str, Any]) -> Acc:
         prog = gen_case(rng, cls)
         acc.hist("class", cls)
         flags: Dict[str, Any] = {}
-        common.guarded(acc, check_program, prog, acc, flags)
+        common.guarded(acc, check_program, prog, acc, flags, case={"program": prog})
         acc.case(bp.phash(prog), bool(flags.get("nontrivial")), sample=prog if i < 40 else None)
     return acc
 
